@@ -40,6 +40,9 @@ void set_log_path_fopen_errno(int e);
 // make the k-th following write (1 = next) fail with errno e (0 disables); short = bytes accepted before failing
 void write_stream_fail(int nth_from_now, int e, size_t accept_bytes);
 int write_stream_failures();
+// stderr: while a sink is set, every fwrite of the code under test to stderr is delivered to it instead (one call per fwrite)
+void set_stderr_sink(write_cb cb, void *ud);
+int std_stream_closes(); // fclose calls on stdin/stdout/stderr made inside runs (recorded, never carried out)
 void reset();
 
 } // namespace simfile
